@@ -101,6 +101,9 @@ class Impl:
       d = (c or self.Q.OpQuantizationConfig()).to_dict()
       self.cfg_dicts[json.dumps(d, sort_keys=True, default=str)] = cid
     self.rx_inv = {v: k for k, v in A["regexes"].items()}
+    # the API takes the algorithm as an AlgorithmName member or as its string value (what a JSON recipe holds): the replay
+    # alternates between the two representations (per history), the specification does not distinguish them
+    self.enum_keys = False
 
   def fresh(self):
     return self.rm_mod.RecipeManager()
@@ -127,7 +130,11 @@ class Impl:
   def add(self, rm, letter):
     r, o, (c, a) = letter
     try:
-      rm.add_quantization_config(self.A["regexes"][r], self.Q.TFLOperationName(o), self.A["cfgs"][c], ALG[a])
+      key = ALG[a]
+      if self.enum_keys:
+        from ai_edge_quantizer import algorithm_manager
+        key = algorithm_manager.AlgorithmName(key)
+      rm.add_quantization_config(self.A["regexes"][r], self.Q.TFLOperationName(o), self.A["cfgs"][c], key)
       return "ok"
     except ValueError:
       return "refused"
